@@ -145,6 +145,7 @@ func propC12(t *rapid.T) {
 }
 
 func TestC12(t *testing.T) {
+	runWitnesses(t, "C12")
 	colC12 = ev.New("C12", "rapid: expression trees (depth <= 4) with high width-gadget density (every generated "+
 		"sub-expression wrapped in 1-3 gadgets of random widths with probability 1/2, incl. gadgets directly under "+
 		"memory-load addresses, narrowing-then-widening chains and gadget look-alikes) x target widths 1..255; "+
